@@ -27,6 +27,8 @@ enum Op {
     ReadQ,
     Write(u8),
     Seek(usize),
+    /// `extend_from_iter` with k words 0x21, 0x22, ...: by contract the per-word loop, short-circuiting on error
+    Extend(u8),
 }
 
 struct Out {
@@ -54,6 +56,15 @@ fn ref_step(r: &Ref, op: Op) -> (Ref, Result<Option<u8>, ()>) {
         Op::Seek(p) => {
             if p > n.buf.len() { Err(()) } else { n.pos = p; Ok(None) }
         }
+        Op::Extend(k) => {
+            let mut res = Ok(None);
+            for i in 0..k {
+                if n.pos == n.buf.len() { res = Err(()); break; }
+                n.buf[n.pos] = 0x21 + i;
+                n.pos += 1;
+            }
+            res
+        }
     };
     (n, res)
 }
@@ -74,6 +85,15 @@ fn ref_step_rev(r: &Ref, op: Op) -> (Ref, Result<Option<u8>, ()>) {
         Op::Seek(p) => {
             if p > n.buf.len() { Err(()) } else { n.pos = p; Ok(None) }
         }
+        Op::Extend(k) => {
+            let mut res = Ok(None);
+            for i in 0..k {
+                if n.pos == 0 { res = Err(()); break; }
+                n.pos -= 1;
+                n.buf[n.pos] = 0x21 + i;
+            }
+            res
+        }
     };
     (n, res)
 }
@@ -92,6 +112,7 @@ macro_rules! cursor_kind {
                 Op::ReadQ => Ok(ReadWords::<u8, Queue>::read(&mut c).unwrap()),
                 Op::Write(w) => WriteWords::<u8>::write(&mut c, w).map(|_| None).map_err(|_| ()),
                 Op::Seek(p) => c.seek(p).map(|_| None),
+                Op::Extend(k) => WriteWords::<u8>::extend_from_iter(&mut c, (0..k).map(|i| 0x21 + i)).map(|_| None).map_err(|_| ()),
             };
             if got != exp_res {
                 o.fail($site, "operation result differs from the contract", format!("state {:?} op {:?}: got {:?} expected {:?}", r, op, got, exp_res));
@@ -118,7 +139,7 @@ cursor_kind!(step_cursor_vec, "Cursor<Vec>", mk_owned);
 cursor_kind!(step_cursor_mut, "Cursor<&mut [Word]>", mk_mut);
 
 fn step_cursor_ref(r: &Ref, op: Op, o: &mut Out) -> Option<Ref> {
-    if matches!(op, Op::Write(_)) {
+    if matches!(op, Op::Write(_) | Op::Extend(_)) {
         return None;
     }
     let (exp_state, exp_res) = ref_step(r, op);
@@ -127,7 +148,7 @@ fn step_cursor_ref(r: &Ref, op: Op, o: &mut Out) -> Option<Ref> {
         Op::ReadS => Ok(ReadWords::<u8, Stack>::read(&mut c).unwrap()),
         Op::ReadQ => Ok(ReadWords::<u8, Queue>::read(&mut c).unwrap()),
         Op::Seek(p) => c.seek(p).map(|_| None),
-        Op::Write(_) => unreachable!(),
+        Op::Write(_) | Op::Extend(_) => unreachable!(),
     };
     if got != exp_res {
         o.fail("Cursor<&[Word]>", "operation result differs from the contract", format!("state {:?} op {:?}: got {:?} expected {:?}", r, op, got, exp_res));
@@ -148,6 +169,7 @@ fn step_reverse(r: &Ref, op: Op, o: &mut Out) -> Option<Ref> {
         Op::ReadQ => Ok(ReadWords::<u8, Queue>::read(&mut c).unwrap()),
         Op::Write(w) => WriteWords::<u8>::write(&mut c, w).map(|_| None).map_err(|_| ()),
         Op::Seek(p) => c.seek(p).map(|_| None),
+        Op::Extend(k) => WriteWords::<u8>::extend_from_iter(&mut c, (0..k).map(|i| 0x21 + i)).map(|_| None).map_err(|_| ()),
     };
     if got != exp_res {
         o.fail("Reverse<Cursor<Vec>>", "operation result differs from the contract", format!("inner state {:?} op {:?}: got {:?} expected {:?}", r, op, got, exp_res));
@@ -306,8 +328,8 @@ fn observe(r: &Ref, o: &mut Out, counters: &mut [u64; 6]) {
 /// Vec / SmallVec as stacks, iterator and callback adapters: all op sequences up to a depth
 fn vec_like(report: &Report, depth: usize) {
     #[derive(Clone, Copy, Debug)]
-    enum V { Read, Write(u8), Seek(usize) }
-    let ops: Vec<V> = vec![V::Read, V::Write(1), V::Write(2), V::Seek(0), V::Seek(1), V::Seek(2), V::Seek(3), V::Seek(5)];
+    enum V { Read, Write(u8), Seek(usize), Extend(u8) }
+    let ops: Vec<V> = vec![V::Read, V::Write(1), V::Write(2), V::Seek(0), V::Seek(1), V::Seek(2), V::Seek(3), V::Seek(5), V::Extend(0), V::Extend(3)];
     let mut total = 0u64;
     let mut bad: Vec<(String, String)> = vec![];
     for len in 0..=depth {
@@ -322,6 +344,7 @@ fn vec_like(report: &Report, depth: usize) {
                     V::Read => (Ok(ReadWords::<u8, Stack>::read(&mut v).unwrap()), Ok(ReadWords::<u8, Stack>::read(&mut s).unwrap()), Ok(r.pop())),
                     V::Write(w) => { r.push(w); (WriteWords::write(&mut v, w).map(|_| None).map_err(|_| ()), WriteWords::write(&mut s, w).map(|_| None).map_err(|_| ()), Ok(None)) }
                     V::Seek(p) => { let e = if p <= r.len() { r.truncate(p); Ok(None) } else { Err(()) }; (v.seek(p).map(|_| None), s.seek(p).map(|_| None), e) }
+                    V::Extend(k) => { for j in 0..k { r.push(0x21 + j); } (WriteWords::extend_from_iter(&mut v, (0..k).map(|j| 0x21 + j)).map(|_| None).map_err(|_| ()), WriteWords::extend_from_iter(&mut s, (0..k).map(|j| 0x21 + j)).map(|_| None).map_err(|_| ()), Ok(None)) }
                 };
                 total += 2;
                 if gv != er || v != r || Pos::pos(&v) != r.len() || BoundedReadWords::<u8, Stack>::remaining(&v) != r.len() || BoundedReadWords::<u8, Stack>::is_exhausted(&v) != r.is_empty() {
@@ -420,7 +443,7 @@ fn bfs(report: &Report, max_len: usize) {
         states += 1;
         maxd = maxd.max(depth);
         observe(&r, &mut o, &mut counters);
-        let mut ops = vec![Op::ReadS, Op::ReadQ, Op::Write(1), Op::Write(2)];
+        let mut ops = vec![Op::ReadS, Op::ReadQ, Op::Write(1), Op::Write(2), Op::Extend(0), Op::Extend(1), Op::Extend(2), Op::Extend(3)];
         for p in 0..=r.buf.len() + 2 {
             ops.push(Op::Seek(p));
         }
